@@ -184,6 +184,9 @@ def run(ctx):
     es = corpus.entries(ctx)
     if ctx.quick:
         es = [e for i, e in enumerate(es) if i % 3 == 0 or e["tag"].startswith(("CONVB", "file:", "REV", "FLAT3"))]
+    else:
+        # thorough: a quarter of the (45 times larger) thorough corpus plus every special family
+        es = [e for i, e in enumerate(es) if i % 4 == 0 or e["tag"].startswith(("CONVB", "file:", "REV", "FLAT3"))]
     es = [e for e in es if not e["tag"].startswith("C11:mm/occ|mrgx:A")]   # F16, reported by C06 / C11
     dres = pmap(default_entry, es, jobs=ctx.jobs, seed=ctx.seed, progress="C10-default")
     viols = []
@@ -202,10 +205,24 @@ def run(ctx):
                           "msg": "%s (default tie-break): %s" % (e["tag"], r["viol"]), "case": {"entry": e, "prefix": []}})
     sl = slice_entries(ctx)
     max_dev = ctx.pick(1, 2)
-    budget = ctx.pick(70, 1500)
+    budget = ctx.pick(70, 500)
     del _SLICE[:]
     _SLICE.extend(sl)
     infos = explore_many(len(sl), lambda items: pmap(run_item, items, jobs=ctx.jobs, seed=ctx.seed, chunk=4), max_dev, budget)
+    # a specification on which every explored order *crashes* (an exception other than the ValueError of a stated rule) is
+    # explored one deviation deeper: a crash that depends on the order is a missing dependence (the tree of a compilation
+    # that aborts early is small)
+    deeper = [i for i, inf in enumerate(infos) if inf["executions"] and all(r.get("rejected") and not str(r["rejected"]).startswith("ValueError")
+                                                                              for _, r in inf["executions"])]
+    if deeper and max_dev < 2:
+        sub = [sl[i] for i in deeper]
+        del _SLICE[:]
+        _SLICE.extend(sub)
+        inf2 = explore_many(len(sub), lambda items: pmap(run_item, items, jobs=ctx.jobs, seed=ctx.seed, chunk=4), 2, 500)
+        for i, inf in zip(deeper, inf2):
+            infos[i] = inf
+        del _SLICE[:]
+        _SLICE.extend(sl)
     runs = texts = execs = 0
     per_spec = []
     nexh = 0
@@ -234,12 +251,17 @@ def run(ctx):
                          "completed_bound": inf["completed_bound"], "exhaustive": inf["exhaustive"], "distinct_texts": len(tset),
                          "graph_nodes": nodes})
         if first:
-            viols.append({"sig": {"kind": first["kind"], "tag": short_tag(e["tag"]), "dev": len([c for c in first["prefix"] if c])},
+            sig = {"kind": first["kind"], "tag": short_tag(e["tag"]), "dev": len([c for c in first["prefix"] if c])}
+            if first["kind"] == "order-dependent-failure":
+                sig["input"] = e["tag"]
+                sig["error"] = str(rej[0][1])[:80]
+                del sig["dev"]
+            viols.append({"sig": sig,
                           "msg": "%s, tie-break choices %r: %s" % (e["tag"], first["prefix"], first["msg"]),
                           "case": {"entry": e, "prefix": first["prefix"], "other_prefix": acc[0] if first["kind"] == "order-dependent-failure" else None}})
     uniq = {}
     for v in viols:
-        uniq.setdefault((v["sig"]["kind"], v["sig"]["tag"]), v)
+        uniq.setdefault((v["sig"]["kind"], v["sig"].get("input", v["sig"]["tag"])), v)
     cov = {"states": states + texts, "transitions": transitions + runs, "traces_validated_against_impl": states + runs,
            "default_tiebreak_specifications": states, "explored_specifications": len(sl), "schedules_explored": runs,
            "distinct_texts_from_explored_schedules": texts, "executions_on_reference_model": execs,
@@ -259,7 +281,8 @@ def replay(ctx, case):
         _, _, r1 = run_one(e, case["prefix"], execute=False)
         _, _, r2 = run_one(e, case["other_prefix"], execute=False)
         if bool(r1.get("rejected")) != bool(r2.get("rejected")):
-            return [{"sig": {"kind": "order-dependent-failure", "tag": short_tag(e["tag"]), "dev": len([c for c in case["prefix"] if c])},
+            return [{"sig": {"kind": "order-dependent-failure", "tag": short_tag(e["tag"]), "input": e["tag"],
+                             "error": str(r1.get("rejected") or r2.get("rejected"))[:80]},
                      "msg": "tie-break %r: %s; tie-break %r: %s" % (case["prefix"], r1.get("rejected") or "compiles", case["other_prefix"], r2.get("rejected") or "compiles"),
                      "case": case}]
         return []
